@@ -21,12 +21,17 @@ def state_adt(mode):
     return '%s::score_state::%sScoreState' % (mode, CAP[mode])
 
 
-def ok_payload(rv):
+def ok_payloads(rv):
     xs = rv[1] if rv[0] == 'phi' else [rv]
-    oks = [x for x in xs if x[0] == 'agg' and x[3] == 'Ok']
-    if len(oks) != 1:
+    return [prov.strip(x[4]['0']) for x in xs if x[0] == 'agg' and x[3] == 'Ok']
+
+
+def ok_payload(rv):
+    """the state returned in Ok(..); several return sites are merged into one phi so that every one of them is judged"""
+    oks = ok_payloads(rv)
+    if not oks:
         return None
-    return prov.strip(oks[0][4]['0'])
+    return prov.phi(oks) if len(oks) > 1 else oks[0]
 
 
 def src_pred(field):
@@ -219,7 +224,7 @@ def r5(ctx, F):
         P = prov.prov_of(gen)
         st = ok_payload(P.return_value())
         gen_map = {}
-        if st is not None and st[0] in ('agg', 'update'):
+        if st is not None and st[0] in ('agg', 'update', 'phi'):
             fields = F.adt_fields(state_adt(mode)) or []
             # value of *self at the Ok return
             wb = {}
@@ -230,8 +235,9 @@ def r5(ctx, F):
                     wb.update(written_slots(alt))
             for f in fields:
                 fv = prov.strip(prov.project_field(st, f))
+                fvs = [fv] + ([prov.strip(a) for a in fv[1]] if fv[0] == 'phi' else [])
                 for g, x in wb.items():
-                    if prov.strip(x) == fv:
+                    if prov.strip(x) in fvs:
                         gen_map[f] = g
         # map defined by state(s)
         sv = prov.prov_of(st_fn).return_value()
